@@ -19,6 +19,7 @@ type c20Dump struct {
 	Global   server.GlobalStats
 	Clients  map[string]server.ClientStats
 	Exists   map[string]bool
+	QueueLen map[string]int // client id -> elements actually in its (memory) queue, -1 unknown
 	Sessions int // sessions in the session store
 	Online   int // entries of the online client list
 }
@@ -29,11 +30,15 @@ func init() {
 			return &sim.Setup{Custom: map[string]func(w *sim.World, op *sim.Op) any{
 				"stats_dump": func(w *sim.World, op *sim.Op) any {
 					srv := w.Nodes[0].Srv
-					d := &c20Dump{Global: srv.StatsManager().GetGlobalStats(), Clients: map[string]server.ClientStats{}, Exists: map[string]bool{}}
+					d := &c20Dump{Global: srv.StatsManager().GetGlobalStats(), Clients: map[string]server.ClientStats{}, Exists: map[string]bool{}, QueueLen: map[string]int{}}
 					for _, c := range w.Plan.Clients {
 						cs, ok := srv.StatsManager().GetClientStats(c.ID)
 						d.Clients[c.ID] = cs
 						d.Exists[c.ID] = ok
+						d.QueueLen[c.ID] = -1
+						if q, ok := server.VerifQueue(srv, c.ID).(interface{ VerifLen() (int, int) }); ok {
+							d.QueueLen[c.ID], _ = q.VerifLen()
+						}
 					}
 					srv.ClientService().IterateSession(func(s *gmqtt.Session) bool { d.Sessions++; return true })
 					srv.ClientService().IterateClient(func(c server.Client) bool { d.Online++; return true })
@@ -106,6 +111,9 @@ func genC20(rng *rand.Rand, tier string) *sim.Plan {
 				op := sim.Op{K: "publish", C: i, Topic: "q/t", QoS: byte(rng.IntN(3)), Payload: fmt.Sprintf("z%d", msg), NoWait: chance(rng, 0.4)}
 				if chance(rng, 0.15) {
 					op.PadTo = 100
+				} else if chance(rng, 0.2) {
+					// sizes around the points where the remaining length needs one more byte (127/128, 16383/16384)
+					op.PadTo = pick(rng, []int{110, 112, 114, 115, 116, 117, 118, 119, 120, 121, 122, 123, 124, 125, 16370, 16372, 16374, 16375, 16376, 16377, 16378, 16379, 16380})
 				}
 				ph.Ops = append(ph.Ops, op)
 			}
@@ -427,6 +435,9 @@ func oracleC20(p *sim.Plan, out *sim.Outcome) []sim.Violation {
 			dq := per[id].dropped[1] + per[id].dropped[2]
 			if cs.MessageStats.InflightCurrent > n || cs.MessageStats.InflightCurrent+dq+uint64(len(relStage)) < n {
 				vs = append(vs, viol("C20", "gauges", "client-inflight", "%s client %s: InflightCurrent %d, QoS>0 PUBLISH packets the client holds un-acknowledged %d (QoS>0 drops reported: %d)", where, id, cs.MessageStats.InflightCurrent, n, dq))
+			}
+			if n, ok := d.QueueLen[id]; ok && n >= 0 && d.Exists[id] && uint64(n) != cs.MessageStats.QueuedCurrent {
+				vs = append(vs, viol("C20", "gauges", "queued-vs-queue", "%s client %s: QueuedCurrent %d but its queue holds %d elements", where, id, cs.MessageStats.QueuedCurrent, n))
 			}
 			if cs.MessageStats.QueuedCurrent < cs.MessageStats.InflightCurrent {
 				vs = append(vs, viol("C20", "gauges", "queued-lt-inflight", "%s client %s: QueuedCurrent %d < InflightCurrent %d", where, id, cs.MessageStats.QueuedCurrent, cs.MessageStats.InflightCurrent))
